@@ -363,7 +363,18 @@ class C16Machine(Machine):
         plan.extend(pd_ops)
         if cfg.get("extend") and self.conv.records:
             r0 = rng.choice(self.conv.records)
-            if rng.random() < 0.7:
+            x = rng.random()
+            if x < 0.3:
+                # a URI prefix NESTED inside a registered one (a registered prefix plus the head of an identifier
+                # the tables use): cells that were convertible before now belong to another record
+                r1 = rng.choice(self.conv.records)
+                nested = rng.choice([r1.uri_prefix, *r1.uri_prefix_synonyms]) + rng.choice(["0", "1", "x", "a/", "00"])
+                if rng.random() < 0.5:
+                    ext = {"prefix": "futn", "uri_prefix": nested, "prefix_synonyms": [], "uri_prefix_synonyms": [], "merge": False}
+                else:
+                    ext = {"prefix": r0.prefix, "uri_prefix": r0.uri_prefix, "prefix_synonyms": [],
+                           "uri_prefix_synonyms": [nested], "merge": True}
+            elif x < 0.8:
                 # merge new names into an existing record
                 ext = {"prefix": r0.prefix, "uri_prefix": r0.uri_prefix, "prefix_synonyms": ["fut1"],
                        "uri_prefix_synonyms": ["fut:1/"], "merge": True}
@@ -887,9 +898,15 @@ class C16Machine(Machine):
         new_target = target is not None and target not in names
         cols = list(df.columns)
         kept = [x for x in cols if not (new_target and x == target)]
-        if kept != list(names) or (new_target and sum(1 for x in cols if x == target) != 1):
+        n_new = sum(1 for x in cols if x == target) if new_target else 0
+        if new_target and not rows and n_new == 0:
+            self.event("pd_no_rows_new_target_column_not_created")       # nothing to put into it: not stated
+            n_new = 1
+        if kept != list(names) or (new_target and n_new != 1):
             raise Violation(PROP, "columns_changed", site,
                             {"got": [str(x) for x in cols], "want": [str(x) for x in names] + ([str(target)] if new_target else [])})
+        if new_target and target not in cols:
+            return {"ok": True, "rows": 0}          # (only possible for a frame without rows, see above)
         if new_target and cols[-1] != target:
             self.event("pd_new_target_column_not_last")
         if list(df.index) != list(orig.index) or len(df) != len(rows) or list(df.index.names) != list(orig.index.names):
